@@ -430,6 +430,11 @@ def noisy_file(rng, kind, delim, directed=False):
             else:
                 continue
             txt = sep.join([str(u), str(v), "+" if row[2] else "-", str(t)])
+        if delim is not None and rng.random() < 0.03 and not bad:
+            # an EMPTY field (two delimiters in a row) is a field like any other with an explicit delimiter: it cannot be converted
+            parts = txt.split(sep)
+            lines.append(sep.join([parts[0], ""] + parts[2:]) + "\n"); bad = True
+            break
         if rng.random() < 0.04 and not bad:
             # a field that cannot be converted: everything up to here is parsed, then TypeError
             r3 = rng.random()
